@@ -21,6 +21,25 @@ CHECKS = {
              "chunk-size compliance and the evaluation counter; plus sampled real fork pools (nessai-created and user-supplied, 1-4 processes) with injected "
              "delays so completion order differs from submission order.",
         note="exhaustive only inside the stated grid; real-pool part sampled; spawn/forkserver start methods and ray pools not reached", ref="DESIGN.md §3 C10"),
+    "C04": dict(
+        cat="exploration", technique="list-model reference monitor with unique ids stepped beside OrderedSamples; bounded exhaustive histories + long random histories",
+        text="Every history init.(thr.[rm].add)^k.[finalise] over a 3-value likelihood alphabet (ties and below/at/above-threshold cases exhaustive), batches of "
+             "all multisets up to size 2, thresholds incl. below-all/above-all, k<=2 (quick) / k<=3 and a 4-value alphabet with batches up to 3 (thorough), in each of "
+             "the four strict x replace-all modes, is executed on the real store; after every call sortedness, the index partition, id conservation, payload and "
+             "log_q alignment, the removed count and the strict live set are compared with a list model. Long random histories add large batches and float ties.",
+        note="exhaustive only within the stated bounds; tie order is unspecified and compared as sets; API-forbidden sequences are excluded and listed", ref="DESIGN.md §3 C04"),
+    "C16": dict(
+        cat="exploration", technique="structural post-condition monitor on every draw + exact binomial frequency monitor over repeated seeded draws",
+        text="For 8 weight-vector classes x lengths 1..1e5: returned samples are the indexed input rows, rejection indices strictly increasing, arg-max kept, -inf never "
+             "kept, multinomial size = requested / int(ESS); ESS in [1,n] and shift invariant; inclusion/selection frequencies over 4000 (40000 thorough) repetitions "
+             "inside exact binomial bounds with total false-alarm probability < 1e-9.",
+        note="statistical part decides at a stated false-alarm level and cannot see deviations below its resolution (~6.5 sigma of a binomial count)", ref="DESIGN.md §3 C16"),
+    "C18": dict(
+        cat="exploration", technique="reference registry model stepped beside config.livepoints + constructor/inverse round-trip monitor, bit-level comparison",
+        text="2000 (50000 thorough) generated cases: identifier names incl. unicode/prefix collisions, 0/1/n points, NaN/inf/-0.0/subnormal/1e308 values, registry "
+             "histories of add/reset; all five constructors with their inverses, with and without non-sampling fields; zero-copy view semantics incl. a model whose "
+             "view dtype was cached before the registry changed.",
+        note="the registry is process-global; each case starts from reset", ref="DESIGN.md §3 C18"),
 }
 
 PENDING_REASON = "check designed in DESIGN.md but not yet built/calibrated in this session; not claimed until its monitor is silent on the unchanged tree"
